@@ -223,7 +223,8 @@ SK_BFV = {
     "handles": [CM, PM, "util::RNSBase::new(%s)" % CM, BASE, "&%s[it1_]" % CM],
     "exprs": {CM + ".len()": "q.len()", PM + ".value()": "t", "c.qualifiers.using_fast_plain_lift": "fast != 0", "c.upper_half_increment": "uhi",
               "c.coeff_modulus_mod_plain_modulus": "q_mod_t", "c.plain_upper_half_threshold": "puht", "c.plain_upper_half_increment": "puhi",
-              CM + "[$i].value()": "q[$i].value()", "&%s[$i].value()" % CM: "q[$i].value()"},
+              CM + "[$i].value()": "q[$i].value()", "&%s[$i].value()" % CM: "q[$i].value()", "c.total_coeff_modulus": "total"},
+    "optional": ["c.total_coeff_modulus"],          # (read only inside the two calls below in the present source)
     "effects": {"c.qualifiers.using_fast_plain_lift = true": "fast = 1;", "c.qualifiers.using_fast_plain_lift = false": "fast = 0;",
                 "util::divide_uint(c.total_coeff_modulus.as_slice(), $w.as_slice(), &$d, &c.upper_half_increment)": "divide_uint(total, &$w, &mut $d, uhi);",
                 BASE + ".decompose(&$d)": "decompose(q, &mut $d);",
